@@ -244,9 +244,9 @@ func c02PathVariants(ep *EP, r *gw.Req) []struct {
 func C02(r *ck.Run) {
 	r.Rule("every endpoint shape of the table (S3 + admin) × path form (plain, trailing slash, key ending in '/') × every credential defect × body/encoding variants; each request is bracketed by byte-exact snapshots of root, versioning, sidecar and IAM directories; distinct = (config, endpoint, path form, defect, body mode)")
 	r.Assume("bookkeeping the API cannot show (empty .sgwtmp directories, unreferenced temp files directly in .sgwtmp) is ignored by the snapshot comparison")
-	cfgs := []gw.Opts{{}, {Versioning: true}}
+	cfgs := []gw.Opts{{}, {Versioning: true}, {Sidecar: true}}
 	if r.Thorough() {
-		cfgs = append(cfgs, gw.Opts{Sidecar: true}, gw.Opts{NoTmpFile: true, Versioning: true})
+		cfgs = append(cfgs, gw.Opts{NoTmpFile: true, Versioning: true}, gw.Opts{Sidecar: true, NoTmpFile: true})
 	}
 	defects := credDefects()
 	eps := Endpoints()
